@@ -142,7 +142,7 @@ PROPS = {
         assumptions=["single-threaded; fewer than 2^32 nested HAinit_group calls per group; fewer than 2^28 HAregister_atom calls per group and process"],
     ),
     "C16": dict(
-        lean_props=["H4.Props.C16"],
+        lean_props=["H4.Props.C16", "H4.Props.C16Fn"],
         engines=[
             E("hp", "e_hp.c", model="hp", wrap=True, quick=dict(cases=1500), thorough=dict(cases=20000, seeds=4, chunk=400)),
             # exhaustive: one case per (workload, stdio call index, single|sticky); cases >= total (printed as INFO total_cases = 8512 for the
@@ -150,7 +150,8 @@ PROPS = {
             E("fault", "e_fault.c", model=None, wrap=True, quick=dict(cases=9600, chunk=150, timeout=1200), thorough=dict(cases=9600, chunk=150, timeout=1200)),
         ],
         trusted_base=["GNU ld --wrap interposition of fopen/fread/fwrite/fseek/fflush/fclose; streams are unbuffered so a library write is a physical write",
-                      "fault model: a failing call transfers nothing (engine fault) or half of the request (engine hp); a failing fclose still releases the descriptor"],
+                      "fault model: a failing call transfers nothing (engine fault) or half of the request (engine hp); a failing fclose still releases the descriptor",
+                      "function level (Props/C16Fn): the stdio contract as written in H4.HPWorld.serve, in particular clause A (a failed fseek does not move the stream; HPseek keeps last_op then); clearerr not modelled (ferror's answers are arbitrary); no signed overflow in f_cur_off + bytes; clang's AST and gen/c2lean.py"],
         assumptions=["the workload library harness/workloads.h (32 workloads) is the quantification domain of the API-level enumeration; it is complete for that library, not for all programs"],
     ),
     "C06": dict(
